@@ -1,0 +1,67 @@
+//go:build verif
+
+package health
+
+// Contracts for the verification tooling (build tag "verif"). Comment-only: never compiled into the daemon.
+// atlock(m) is the content of the guarded registry map at the most recent acquisition of its lock, i.e. at
+// the linearisation point of the critical section; under concurrency the contracts refer to it, not to old().
+
+//@ ghost g_http_status : Int
+//@ ghost g_http_calls : Int
+//@ ghost g_encoded : Int
+
+//@ pred RMap(o) := o.readyMap.m
+//@ pred HealthOK(o) := o != nil && o.readyMap != nil && alloc(o.readyMap) && RMap(o) != nil && alloc(RMap(o))
+//@ pred AllReady(m) := forall c string :: has(m, c) ==> m[c]
+//@ pred SetTo(o, component, v) := has(RMap(o), component) && RMap(o)[component] == v
+//@   | && (forall k string :: k != component ==> (has(RMap(o), k) <==> has(atlock(RMap(o)), k)) && (has(RMap(o), k) ==> RMap(o)[k] == atlock(RMap(o))[k]))
+
+//@ func (*Health).AddReadiness
+//@   requires HealthOK(o)
+//@   ensures[set] SetTo(o, component, false)
+
+//@ func (*Health).OnReady
+//@   requires HealthOK(o)
+//@   ensures[set] SetTo(o, component, true)
+
+//@ func (*Health).IsReady
+//@   requires HealthOK(o)
+//@   modifies nothing
+//@   ensures[def] result <==> AllReady(atlock(RMap(o)))
+//@   loop Iterate#1 invariant[acc] isReady && (forall k string :: visited[k] ==> has(RMap(o), k) && RMap(o)[k])
+//@   loop Iterate#1 invariant[frame] kept("M!*") && kept("F!*") && kept("G!snap!*")
+
+// StatusOf(r, m): r is the status map of registry state m.
+//@ pred StatusOf(r, m) := r != nil && has(r, "overall")
+//@   | && (forall c string :: c != "overall" ==> (has(r, c) <==> has(m, c)) && (has(m, c) ==> r[c] == ite(m[c], "ok", "not-ready")))
+//@   | && (!has(m, "overall") ==> (r["overall"] == "ok" <==> AllReady(m)) && (r["overall"] == "ok" || r["overall"] == "not-ready"))
+
+//@ func (*Health).GetReadyzStatusMap
+//@   requires HealthOK(o)
+//@   modifies nothing
+//@   allocates "M!map<string>string!*"
+//@   ensures[fresh] fresh(result)
+//@   ensures[status] StatusOf(result, atlock(RMap(o)))
+//@   loop Iterate#1 invariant[acc2] smap != nil && (overalReady <==> (forall k string :: visited[k] ==> RMap(o)[k]))
+//@   |   && (forall k string :: has(smap, k) <==> visited[k])
+//@   |   && (forall k string :: visited[k] ==> has(RMap(o), k) && smap[k] == ite(RMap(o)[k], "ok", "not-ready"))
+//@   loop Iterate#1 invariant[frame] kept_objs("M!*", smap) && kept("F!*") && kept("G!snap!*")
+
+//@ func (*Health).readyzHandler
+//@   requires HealthOK(o) && w != nil
+//@   ensures[once] g_http_calls == old(g_http_calls) + 1
+//@   ensures[code] !has(atlock(RMap(o)), "overall") ==> (g_http_status == 200 <==> AllReady(atlock(RMap(o)))) && (g_http_status == 200 || g_http_status == 503)
+//@   ensures[body] g_encoded != 0 && StatusOf(cast(g_encoded, "map[string]string"), atlock(RMap(o)))
+
+// The goroutine started by WaitForReady: closes the channel only right after IsReady returned true,
+// sends (the context's error) only on the cancellation arm, and does exactly one of the two.
+//@ func (*Health).WaitForReady$1
+//@   requires HealthOK(o) && ctx != nil && out != nil && !closed(out)
+//@   ensures[one] (closed(out) && sentlen(out) == old(sentlen(out))) || (!closed(out) && sentlen(out) == old(sentlen(out)) + 1)
+//@   ensures[ready] closed(out) ==> AllReady(atlock(RMap(o)))
+//@   ensures[cancel] sentlen(out) == old(sentlen(out)) + 1 ==> cancelled(ctx)
+//@   loop WaitForReady$1#1 invariant[idle] !closed(out) && sentlen(out) == old(sentlen(out))
+
+//@ func (*Health).WaitForReady
+//@   requires HealthOK(o) && ctx != nil
+//@   ensures[chan] result != nil
